@@ -9,7 +9,8 @@ From Refinery Require Import Lib.Base Gen.GenC31 Model.SentCache Proofs.SentCach
 (* Kept half, from a record.  After Record(x, kept, rate, reason), for EVERY history [ops] that does not
    re-record x and in which the number of distinct other trace ids recorded-kept or consulted stays below
    the smallest per-worker kept capacity in force (resizes included), CheckTrace x / CheckSpan x answer
-   "kept" with the recorded rate (as stored: mod 2^32) and the recorded reason — unless x is (also) in the
+   "kept" with the recorded rate (as stored: [store_rate] is the identity when the record holds a uint,
+   mod 2^32 when it holds a uint32 - read from the source) and the recorded reason — unless x is (also) in the
    dropped filter / recent-drop set, in which case "dropped" wins (C31_dropped_wins).
    Hypotheses granted by the property: the invariant of reachable states (C31_invariant_reachable), no
    hash collision between [reason] and the reasons interned so far (the reasons cache indexes by a 64-bit
@@ -23,9 +24,9 @@ Theorem C31_kept_recent_after_record :
   (card (touched_others x ops) < min_cap (kcap c) ops)%N ->
   let c2 := run h slots_of (fst (step h slots_of c (RecKept x rate reason d e l sp))) ops in
   chk_check x (chk c2) = false ->
-  (exists d' e' l' s', snd (step h slots_of c2 (ChkTrace x)) = AKept (rate mod two32) d' e' l' s' reason) /\
+  (exists d' e' l' s', snd (step h slots_of c2 (ChkTrace x)) = AKept (store_rate rate) d' e' l' s' reason) /\
   (forall ann, recent_contains x c2 = false ->
-     exists d' e' l' s', snd (step h slots_of c2 (ChkSpan x ann)) = AKept (rate mod two32) d' e' l' s' reason).
+     exists d' e' l' s', snd (step h slots_of c2 (ChkSpan x ann)) = AKept (store_rate rate) d' e' l' s' reason).
 Proof. exact kept_recent_record. Qed.
 Print Assumptions C31_kept_recent_after_record.
 
@@ -118,6 +119,7 @@ Example C31_nonvacuous :
               RecKept 3 9 "rule-a" 1 0 0 1; RecDropped 4; Drain; ChkTrace 1; ChkTrace 2; ChkTrace 4;
               Resize 1 16 1; ChkTrace 3; ChkTrace 1]%N in
   run_out h (fun c => 4 * c)%N (cache_init (fun c => 4 * c)%N 2 4 1 0) ops =
-  [AUnit; AUnit; AKept 5 3 0 0 3 "rule-a"; AUnit; AUnit; AState 1 16 None 0;
-   AKept 5 3 0 0 3 "rule-a"; ANotFound; ADropped; AUnit; ANotFound; AKept 5 3 0 0 3 "rule-a"]%N.
+  [AUnit; AUnit; AKept (store_rate 4294967301) 3 0 0 3 "rule-a"; AUnit; AUnit; AState 1 16 None 0;
+   AKept (store_rate 4294967301) 3 0 0 3 "rule-a"; ANotFound; ADropped; AUnit; ANotFound;
+   AKept (store_rate 4294967301) 3 0 0 3 "rule-a"]%N.
 Proof. vm_compute. reflexivity. Qed.
